@@ -73,14 +73,32 @@ def show_pw(h):
 def run(ctx):
     hb = C.build_harness("srp")
     cases_path = ctx.work + "/cases.txt"
-    rc, out = C.sh([hb, "gen", ctx.tier, cases_path], env=ctx.env(), timeout=3000)
-    if rc != 0:
-        raise C.BuildError("harness gen failed: " + out[-2000:])
+    gen_path = ctx.work + "/cases_gen.txt"
+    probe_path = ctx.work + "/cases_probe.txt"
     stats = {}
-    for l in out.splitlines():
-        f = l.split("\t")
-        if len(f) == 3 and f[0] == "stat":
-            stats[f[1]] = int(f[2])
+
+    def take_stats(out):
+        for l in out.splitlines():
+            f = l.split("\t")
+            if len(f) == 3 and f[0] == "stat":
+                stats[f[1]] = int(f[2])
+
+    # history stage 1: truncated-key collision probe, sequential calls in one process of its own (first, so that it
+    # still reports if the concurrent stage below takes the process down)
+    rc, out = C.sh([hb, "probe", probe_path], env=ctx.env(), timeout=1200)
+    if rc != 0:
+        raise C.BuildError("harness probe failed: " + out[-2000:])
+    take_stats(out)
+    # stage 2: all generated cases in one long-lived process, 16 goroutines
+    rc, out = C.sh([hb, "gen", ctx.tier, gen_path], env=ctx.env(), timeout=3000)
+    gen_failure = None
+    if rc != 0:
+        gen_failure = out[-2000:]
+        open(gen_path, "w").close()
+    take_stats(out)
+    with open(cases_path, "w") as f:
+        f.write(open(probe_path).read())
+        f.write(open(gen_path).read())
 
     pr = C.coq_props(PROPS)
     C.coq_obligation_violations(ctx, pr, "C18")
@@ -97,6 +115,7 @@ def run(ctx):
     verdicts = {"acc": 0, "rej": 0, "na": 0}
     layouts = {}
     fresh_jobs = []
+    probe_history = []
 
     def internal(msg):
         raise C.BuildError("C18 framework inconsistency (no verdict): " + msg)
@@ -120,6 +139,11 @@ def run(ctx):
             verdicts[rverdict] = verdicts.get(rverdict, 0) + 1
             base = {"kind": "x", "inputs": inputs, "tags": tags, "password": show_pw(pw), "registered_password": show_pw(regpw),
                     "layout": lay}
+            if cid.startswith("p"):
+                # probe calls are sequential in one process: the replay repeats the calls made before this one
+                base["history"] = [list(h) for h in probe_history]
+                base["history_passwords"] = [[show_pw(h[2]), show_pw(h[1])] for h in probe_history]
+                probe_history.append(inputs)
             agree = (icls, iA, iM1) == (mcls, mA, mM1)
             fresh_jobs.append((cid, inputs, (icls, iA, iM1), key, base))
             if intact != "intact":
@@ -218,6 +242,11 @@ def run(ctx):
                     exchanges += 1
                     verdicts[rverdict] = verdicts.get(rverdict, 0) + 1
 
+    if gen_failure is not None and not ctx.violations:
+        raise C.BuildError("harness gen failed: " + gen_failure)
+    if gen_failure is not None:
+        ctx.notes.append("the concurrent generation stage died: " + gen_failure[-400:])
+
     # history independence: the answers above come from ONE long-lived process that served all cases (16 goroutines);
     # with the random bytes injected the answer is a function of the inputs, so a fresh process must give the same bytes
     fresh_checked, fresh_diff = history_independence(ctx, hb, fresh_jobs)
@@ -249,7 +278,9 @@ def run(ctx):
                  "the exact string: accept), as a near-miss of the registered one (reject) and alone (an SRP answer, not the no-password answer); "
                  "byte-slice inputs (salt1, salt2, srp_B, p, random) handed in as exact separate slices, with spare capacity, or as windows of one "
                  "guarded array in four orders, whole backing arrays compared before/after; every x/r case re-run in a fresh process and "
-                 "compared with the answer of the long-lived process (history independence)",
+                 "compared with the answer of the long-lived process (history independence); truncated-key collision probe: password pairs "
+                 "(birthday search with the harness's reference SHA-256) whose PH1 resp. SH(pw,salt1) agree on the first / last 4 bytes, "
+                 "called A/A, B/A, B/B, A/B (typed/registered) sequentially in one process",
          "samples": samples, "input_distribution": stats, "disagreements_checked": disagreements,
          "input_layouts": layouts, "fresh_process_reruns": fresh_checked, "fresh_process_differences": fresh_diff,
          "exchanges_judged_by_reference_server": exchanges, "reference_server_verdicts": verdicts,
@@ -293,10 +324,19 @@ def replay(ctx, path):
         print("replay names a broken obligation, re-running the full check")
         return run(ctx)
     hb = C.build_harness("srp")
-    rc, out = C.sh([hb, "one"] + obj["inputs"], env=ctx.env(), timeout=600)
+    if obj.get("history"):
+        seq = ctx.work + "/replay_seq.txt"
+        with open(seq, "w") as fh:
+            for h in obj["history"] + [obj["inputs"]]:
+                fh.write("\t".join(h) + "\n")
+        print("replaying %d earlier call(s) in the same process first: [typed, registered] = %s"
+              % (len(obj["history"]), obj.get("history_passwords")))
+        rc, out = C.sh([hb, "seq", seq], env=ctx.env(), timeout=1200)
+    else:
+        rc, out = C.sh([hb, "one"] + obj["inputs"], env=ctx.env(), timeout=600)
     if rc != 0:
         raise C.BuildError("harness one failed: " + out[-1000:])
-    f = out.strip().split("\t")
+    f = out.strip().split("\n")[-1].split("\t")
     exp = obj.get("expected", {})
     kind = obj["inputs"][0]
     if kind == "x":
